@@ -13,8 +13,12 @@ import (
 	"github.com/pkg/errors"
 )
 
+// NOTE map keys are sorted; without it the same value marshals to different
+// bytes from call to call (go map iteration order).
+var sonicConfig = sonic.Config{SortMapKeys: true}.Froze()
+
 func marshalJSON(v interface{}) ([]byte, error) {
-	b, err := sonic.Marshal(v)
+	b, err := sonicConfig.Marshal(v)
 
 	return b, errors.WithStack(err)
 }
@@ -24,13 +28,13 @@ func unmarshalJSON(b []byte, v interface{}) error {
 }
 
 func marshalJSONIndent(i interface{}) ([]byte, error) {
-	b, err := sonicencoder.EncodeIndented(i, "", "  ", 0)
+	b, err := sonicencoder.EncodeIndented(i, "", "  ", sonicencoder.SortMapKeys)
 
 	return b, errors.WithStack(err)
 }
 
 func newJSONStreamEncoder(w io.Writer) StreamEncoder {
-	return sonicencoder.NewStreamEncoder(w)
+	return sonicConfig.NewEncoder(w)
 }
 
 func newJSONStreamDecoder(r io.Reader) StreamDecoder {
